@@ -477,17 +477,21 @@ class Lexer {
   }
 
   Token readToken() {
-    // Skip whitespace.
-    while (std::isspace(lastChar)) {
-      if (lastChar == '\n') {
-        currentLineNumber++;
-        currentCharNumber = 0;
-        currentLine.clear();
+    // Skip whitespace and comments (iteratively, any number of them may
+    // precede the next token).
+    while (true) {
+      while (std::isspace(lastChar)) {
+        if (lastChar == '\n') {
+          currentLineNumber++;
+          currentCharNumber = 0;
+          currentLine.clear();
+        }
+        readChar();
       }
-      readChar();
-    }
-    // Comment.
-    if (lastChar == '#') {
+      if (lastChar != '#') {
+        break;
+      }
+      // Comment.
       do {
         readChar();
       } while (lastChar != EOF && lastChar != '\n');
@@ -497,7 +501,6 @@ class Lexer {
         currentLine.clear();
         readChar();
       }
-      return readToken();
     }
     // Identifier.
     if (std::isalpha(lastChar)) {
